@@ -30,6 +30,24 @@ def instances(seed, n):
                 mp["EXTRA%d" % i] = k
             inst["map"] = mp
         out.append(inst)
+    # start-state machines: single-letter rules with every kind of stack operation, long inputs
+    for i in range(max(20, n // 5)):
+        ns = rng.randint(1, 3)
+        names = ["S%d" % (k + 1) for k in range(ns)]
+        lines = ["%s %s" % (rng.choice(["%x", "%s"]), nm) for nm in names] + ["%%"]
+        letters = list("abcdefgh")[:rng.randint(3, 7)]
+        for j, ch in enumerate(letters):
+            pre = ("<%s>" % ",".join(rng.sample(names + ["INITIAL"], rng.randint(1, 2)))) if rng.random() < 0.4 else ""
+            tgt = ("<%s%s>" % (rng.choice(["", "+", "-", "+", "-"]), rng.choice(names + ["INITIAL"]))) if rng.random() < 0.6 else ""
+            lines.append("%s%s %s'T%d'" % (pre, ch, tgt, j))
+        for nm in names:
+            lines.append("<%s>x 'X%s'" % (nm, nm))
+        lines.append("x 'X0'")
+        out.append(dict(id="lexsm%d" % i, l="\n".join(lines) + "\n", eff=DEFAULT_EFF,
+                        inputs=["".join(rng.choice(letters + ["x"]) for _ in range(rng.randint(4, 14))) for _ in range(20)]))
+    out.append(dict(id="lex-fixed-replace", eff=DEFAULT_EFF,
+                    l="%s A\n%s B\n%%\na <+A>'PA'\nb <+B>'PB'\nc <A>'RA'\np <-A>'POP'\n<A>x 'XA'\n<B>x 'XB'\nx 'X0'\n",
+                    inputs=["abcpx", "acpx", "abpx", "abppx", "aabcppx", "bacpx", "x"]))
     # fixed cases: stack discipline, exclusive states, ties
     out.append(dict(id="lex-fixed-stack", eff=DEFAULT_EFF, l="%x A\n%s B\n%%\n\\( <+A>'LP'\n<A>\\( <+A>'LP2'\n<A>\\) <-A>'RP'\n<A>a 'AA'\na 'A0'\nb <B>'B0'\n<B>c <INITIAL>'C0'\n<A,B>[ ]+ ;\n[ ]+ ;\n",
                     inputs=["((a))a", "(a)(a", "a b a c a", "( ( a ) ) a", ")", "((a)))a", "b a c a"]))
